@@ -9,6 +9,8 @@ import (
 	"sort"
 	"strings"
 	"testing"
+	"testing/synctest"
+	"time"
 
 	"github.com/ipfs/go-cid"
 	"github.com/libp2p/go-libp2p/core/peer"
@@ -24,6 +26,7 @@ import (
 // C06: puts and provides reach every closest peer found, with correct content; corrective puts.
 
 type c06cfg struct {
+	prelude   bool   // an earlier Provide of another key under another advertised address, one virtual second before (seed C06-i)
 	op        string // putvalue, provide, optprovide, corrective
 	n, k, a   int
 	lookupBeh []string // per peer behaviour during the lookup
@@ -65,7 +68,7 @@ func c06Configs(tier string) []vmc.Cfg {
 	var out []vmc.Cfg
 	add := func(c c06cfg) {
 		out = append(out, vmc.Cfg{Name: fmt.Sprintf("%s/n%dk%da%d/lookup:%s/put:%s/addrs%x/%s/recs:%s", c.op, c.n, c.k, c.a,
-			strings.Join(c.lookupBeh, ","), strings.Join(c.putBeh, ","), c.addrMask, c.filter, strings.Join(c.recs, ",")), Data: c})
+			strings.Join(c.lookupBeh, ","), strings.Join(c.putBeh, ","), c.addrMask, c.filter, strings.Join(c.recs, ",")) + map[bool]string{true: "/after-provide-under-other-address", false: ""}[c.prelude], Data: c})
 	}
 	honest := func(n int) []string {
 		o := make([]string, n)
@@ -106,6 +109,7 @@ func c06Configs(tier string) []vmc.Cfg {
 	for mask := 0; mask < 16; mask++ {
 		for _, f := range []string{"none", "public-only", "no-loopback"} {
 			add(c06cfg{op: "provide", n: 3, k: 2, a: 2, lookupBeh: honest(3), putBeh: []string{"", "", ""}, addrMask: mask, filter: f})
+			add(c06cfg{op: "provide", n: 3, k: 2, a: 2, lookupBeh: honest(3), putBeh: []string{"", "", ""}, addrMask: mask, filter: f, prelude: true})
 			if mask == 3 || mask == 0 || mask == 4 {
 				add(c06cfg{op: "optprovide", n: 5, k: 4, a: 3, lookupBeh: honest(5), putBeh: []string{"", "", "", "", ""}, addrMask: mask, filter: f})
 			}
@@ -253,6 +257,31 @@ func c06Run(x *vmc.X, cfg vmc.Cfg) {
 		wantAddrs = addrs
 	}
 
+	if c.prelude {
+		// the node advertised something else a moment ago: what goes out now is what it advertises now
+		l.h.SetAddrs([]ma.Multiaddr{ma.StringCast("/ip4/7.7.7.7/tcp/4001")})
+		l.net.Instant = true
+		pdone := make(chan error, 1)
+		go func() { pdone <- l.d.Provide(l.ctx, cid.NewCidV1(cid.Raw, kid.Mh("000", 7)), true) }()
+		pret := false
+		if !l.runToCompletion("C06/prelude", func() bool {
+			select {
+			case <-pdone:
+				pret = true
+			default:
+			}
+			return pret && len(l.net.PendingEvents()) == 0
+		}, 120) {
+			return
+		}
+		l.net.Instant = false
+		l.net.Log = nil
+		l.delivered = nil
+		l.step = 0
+		l.h.SetAddrs(addrs)
+		time.Sleep(time.Second)
+		synctest.Wait()
+	}
 	ctx, cancel := context.WithCancel(l.ctx)
 	defer cancel()
 	done := make(chan error, 1)
